@@ -567,6 +567,21 @@ class PathRules:
                         rep.ob(rule, b.id, "%s: stream copy writes destination.create_file()" % name, okw, fmt(wri)[:60], s.line)
             if not any(sname(s.path) == "copy" and s.path.endswith("io::copy") for cb in self.cbs(b) for s in self.inter.sites(cb)):
                 rep.fail(rule, b.id, "%s: generic stream copy present" % name, "no io::copy call found", b.span)
+            # the generic route needs nothing of a filesystem but open_file / create_file (+ remove_file for a move): any other
+            # mutating call (carrying a time stamp over, fixing permissions) makes the transfer fail on backends that lack that
+            # optional operation although every byte was copied
+            allowed = {"create_file", name} | ({"remove_file"} if name == "move_file" else set())
+            extra = []
+            for cb in self.cbs(b):
+                for s in self.inter.sites(cb):
+                    nm = sname(s.path)
+                    if nm in self.MUTATORS and nm != "copy" and nm not in allowed and \
+                            ((s.self_ty or "").endswith("VfsPath") or s.trait == w.trait):
+                        extra.append(nm)
+            n += 1
+            rep.ob(rule, b.id, "%s: the generic route makes no other mutating call" % name, not extra, "" if not extra else
+                   "%s also calls %s: a backend without that optional operation fails the whole transfer (and copy_dir / move_dir stop "
+                   "halfway)" % (name, ", ".join(sorted(set(extra)))), b.span)
         for name in ("copy_dir", "move_dir"):
             b = self.methods.get(name)
             if b is None:
